@@ -146,7 +146,7 @@ def class_methods_mro(repo: Repo, cls_name: str, rel_hint: Optional[str]) -> Tup
     return methods, consts
 
 
-def block_flow(repo: Repo, block_cls: str, rel: str, fmt_cls: str, fmt_rel: str, subjects: Dict[str, str], flags: Optional[Dict[str, bool]] = None, primitives: Sequence[str] = (), pure: Sequence[str] = (), keep: Sequence[str] = ()) -> PyFlow:
+def block_flow(repo: Repo, block_cls: str, rel: str, fmt_cls: str, fmt_rel: str, subjects: Dict[str, str], flags: Optional[Dict[str, bool]] = None, primitives: Sequence[str] = (), pure: Sequence[str] = (), keep: Sequence[str] = (), inline_props: Any = False) -> PyFlow:
     bm, bc = class_methods_mro(repo, block_cls, rel)
     fm, fc = class_methods_mro(repo, fmt_cls, fmt_rel)
     consts = dict(fc)
@@ -172,7 +172,7 @@ def block_flow(repo: Repo, block_cls: str, rel: str, fmt_cls: str, fmt_rel: str,
     prims = tuple(primitives) + ("push", "push_string", "push_empty_line", "push_comment", "push_docstring", "push_definition_comments", "push_definition_docstring", "push_location_doc")
     return PyFlow(
         funcs=funcs, methods=bm, typed={"self": bm, "self.formatter": fm}, consts=consts, inline_filter=flt, primitives=prims, pure=tuple(pure),
-        decide=class_decider(repo, subjects, flags), names={}, max_depth=8, havoc_on=(), max_paths=2000, super_targets=super_targets(m, m.cls(block_cls, rel)),
+        decide=class_decider(repo, subjects, flags), names={}, max_depth=8, havoc_on=(), max_paths=2000, super_targets=super_targets(m, m.cls(block_cls, rel)), inline_props=inline_props,
     )
 
 
